@@ -11,7 +11,44 @@ import (
 
 // chanRole classifies a channel expression by what the API / struct layout says it is.
 func (p *Prog) chanRole(v ssa.Value) string {
-	return symChanRole(p.Sym(v))
+	return symChanRole(p.upChan(p.Sym(v), 0))
+}
+
+// upChan: a channel that reaches a private helper as an argument (send(dsc.output, item)) plays
+// the role it has at the call sites, when they all agree.
+func (p *Prog) upChan(s *Sym, depth int) *Sym {
+	s0 := s.StripConv()
+	par, ok := s0.V.(*ssa.Parameter)
+	if !ok || s0.Op != "param" || depth > 3 {
+		return s
+	}
+	if _, isChan := par.Type().Underlying().(*types.Chan); !isChan {
+		return s
+	}
+	fn := par.Parent()
+	if obj, _ := fn.Object().(*types.Func); obj != nil && obj.Exported() {
+		return s
+	}
+	idx := paramIndex(fn, par)
+	var found *Sym
+	for _, cs := range p.CallSites(fn) {
+		if _, isGo := cs.(*ssa.Go); isGo {
+			return s
+		}
+		args := cs.Common().Args
+		if idx < 0 || idx >= len(args) {
+			return s
+		}
+		a := p.upChan(p.Sym(args[idx]), depth+1)
+		if found != nil && found.String() != a.String() {
+			return s
+		}
+		found = a
+	}
+	if found == nil {
+		return s
+	}
+	return found
 }
 
 func symChanRole(s *Sym) string {
